@@ -49,9 +49,9 @@ func init() {
 			"envelope = [min,max] over the surface values actually imposed so far, the lower-boundary temperature and the initial profile; slack 1e-9 K"},
 		Bound: func(t string) string {
 			if t == "quick" {
-				return "D=3 over 7 symbols + 4 alternating words of length 30 per scenario; 9 density values x 4 carbon levels x 3 water levels x 4 depths"
+				return "D=3 over 7 symbols + 4 alternating words of length 30 per scenario; 9 density values x 6 carbon levels (0-35 %, organic ones on half of the water/depth grid) x 3 water levels x 4 depths"
 			}
-			return "D=5 over 7 symbols + alternating words; 16 density values x 4 carbon levels x 5 water levels x 4 depths"
+			return "D=5 over 7 symbols + alternating words; 16 density values x 6 carbon levels (0-35 %) x 5 water levels x 4 depths"
 		},
 		Budget: func(t string) time.Duration {
 			if t == "quick" {
@@ -73,11 +73,20 @@ func init() {
 				waters = []float64{0, 0.3, 0.6, 1.0, 1.3}
 				d = 5
 			}
+			k := 0
 			for _, b := range bds {
-				for _, corg := range []float64{0, 1.2, 3.5, 5.8} {
+				// organic carbon from mineral soils to peat (the bulk densities of the grid stay in the admissible range)
+				for _, corg := range []float64{0, 1.2, 5.8, 12, 20, 35} {
 					for _, iw := range waters {
 						for _, n := range []int{1, 2, 3, 20} {
+							k++
+							if corg > 6 && (n == 2 || k%2 == 1) && tier == "quick" {
+								continue // quick: organic horizons on half of the depth/water grid
+							}
 							h := proj.Horizon{Tex: "SL3", Lower: n, BD: b.class, BulkDensity: b.meas, Corg: corg, CN: 10}
+							if corg > 15 {
+								h.Tex = "HN"
+							}
 							base := e1Base{Soil: "custom", Hor: []proj.Horizon{h}, GW: 99, InitW: iw, InitN: 10, ET: 3}
 							tb := 8.7
 							if n == 3 {
@@ -136,6 +145,9 @@ func (l *c19Probe) probe() *hermes.VerifProbe {
 			N := g.N
 			l.c.Transition(1)
 			surf := g.TSOIL[1][0]
+			if os.Getenv("C19_DEBUG") != "" {
+				fmt.Printf("day %d humus=%v bd=%v heatcap=%v cond=%v T=%v\n", zeit, g.HUMUS[:2], g.BD[:2], g.HEATCAP[:3], g.HEATCOND[:3], g.TSOIL[0][:4])
+			}
 			l.widen(surf) // the surface value imposed today belongs to the envelope
 			l.widen(g.TBASE)
 			near := math.Abs(surf-l.prevSurf) > 20
